@@ -77,6 +77,8 @@ def workloads(sid):
                          'setstr 0 %s %s 0' % (hx('sl'), hx('x\\y$z' * 60)), 'setcomment 0 %s %s' % (hx('f'), hx('a long annotation ' * 30)), 'setcomment 0 %s %s' % (hx('b'), hx('two lines and\nan early end */ of comment')),
                          'setcomment 0 %s %s' % (hx('il'), hx('one line */ with an end marker')), '@OOM', 'print 0', 'print_indent 0 2', 'opt_print %s' % optloc('sl'), 'init 1 %d %d' % (sid, F_COMMENTS),
                          'print_parse 0 1']
+    # function calls with more arguments than any fixed-size vector would hold
+    W['parse-many-args'] = init + ['@OOM', 'parse_buf 0 %s' % hx('fn(%s)\ni = 2\nfn(%s)\n' % (', '.join('a%d' % k for k in range(20)), ', '.join('b%d' % k for k in range(70))))]
     # a plain section opened from one file and again from another (its source name changes)
     W['reopen-other-file'] = init + ['parse_file 0 %s' % hx('sec1.conf'), '@OOM', 'parse_file 0 %s' % hx('sec2.conf'), 'parse_buf 0 %s' % hx('one { deep { d = {y} } }\n'),
                                      'parse_file 0 %s' % hx('sec1.conf')]
@@ -180,6 +182,10 @@ def judge(spec, events, death):
             claims_success = bool(prev) and prev[-1].get('rc') == 0
         dumps = [json.dumps(x['tree'], sort_keys=True) for x in events if x.get('ev') == 'dump']
         v.notes.setdefault('ops_hit', set()).add(op)
+        ncb = len([x for x in events if x.get('ev') == 'cb' and x.get('k') == 'func'])
+        if claims_success and 'funcs' in ref and ncb != ref['funcs']:
+            v.bad('alloc=%s:effect=silent-incomplete:function-not-called:during-%s' % (site, op), 'workload %s, allocation #%d (%s) fails during %s: the call returns success, yet %d function callbacks ran instead of %d' % (
+                spec['w'], spec['k'], site, op, ncb, ref['funcs']))
         if claims_success and dumps != ref['dumps']:
             v.bad('alloc=%s:effect=silent-incomplete:during-%s' % (site, op), 'workload %s, allocation #%d (%s) fails during %s: the call returns success, yet the resulting tree differs from the fault-free run (it did not complete and did not say so)' % (
                 spec['w'], spec['k'], site, op))
@@ -255,7 +261,7 @@ def run(tier, seed, bindirs):
         if end['live']:
             raise core.HarnessError('fault-free run of workload %s leaks' % w)
         ref[w] = {'rcs': [(x.get('op'), x.get('rc')) for x in evs if x.get('ev') == 'r'], 'looks': [x.get('pos') for x in evs if x.get('ev') == 'look'],
-                  'paths': [x.get('v') for x in evs if x.get('ev') == 'path'], 'prints': [x.get('out') for x in evs if x.get('ev') == 'print'],
+                  'paths': [x.get('v') for x in evs if x.get('ev') == 'path'], 'prints': [x.get('out') for x in evs if x.get('ev') == 'print'], 'funcs': len([x for x in evs if x.get('ev') == 'cb' and x.get('k') == 'func']),
                   'dumps': [json.dumps(x['tree'], sort_keys=True) for x in evs if x.get('ev') == 'dump']}
     # generated workloads (random schema / text / setter sequence), every k of each
     rng = core.seeded_rng(seed, 'c18')
